@@ -188,6 +188,23 @@ func sameTokens(a, b lexed) bool {
 	return same
 }
 
+// c20Alphabet: the characters that matter to the lexer's layout handling.
+var c20Alphabet = []rune{'a', '1', ' ', '\n', '\r', '\t', '/', '*', '#', '"', '\'', '`', '=', '|', '.'}
+
+// c20Runes: up to two fully symbolic runes; three runes (thorough tier) are
+// drawn from c20Alphabet, because the full rune domain at that length does not
+// finish within the path budget.
+func c20Runes(n int) []rune {
+	if n < 3 {
+		return symRunes(n)
+	}
+	rs := make([]rune, n)
+	for i := range rs {
+		rs[i] = c20Alphabet[verifrt.Choose(len(c20Alphabet))]
+	}
+	return rs
+}
+
 // HarnessC20LexLayoutGaps: blanks and block comments inserted at any token
 // start leave token kinds and literals unchanged, and the re-laid-out text
 // still satisfies the position invariants.
@@ -197,7 +214,7 @@ func HarnessC20LexLayoutGaps() {
 		maxN = 3
 	}
 	n := verifrt.Choose(maxN + 1)
-	rs := symRunes(n)
+	rs := c20Runes(n)
 	orig := lexAll(rs, false)
 	if !orig.ok {
 		verifrt.Reach("opt:original-rejected")
@@ -240,7 +257,7 @@ func HarnessC20LexLineComments() {
 		maxN = 3
 	}
 	n := verifrt.Choose(maxN + 1)
-	rs := symRunes(n)
+	rs := c20Runes(n)
 	orig := lexAll(rs, false)
 	if !orig.ok {
 		verifrt.Reach("opt:original-rejected")
